@@ -1243,6 +1243,22 @@ func systematic() []Spec {
 			mixed = append(mixed, vp("uchar", "r"), vp("uchar", "g"), vp("float", "b"))
 		}
 		out = append(out, sysSpec(f, lone, r, 2), sysSpec(f, partial, r, 2), sysSpec(f, mixed, r, 2))
+		// property names are case-sensitive: X, Red, NX ... are no members of any group
+		cased := append(append([]VProp(nil), xyz...), vp("float", "X"), vp("float", "Y"), vp("float", "Z"), vp("int", "Red"), vp("int", "Green"),
+			vp("int", "Blue"), vp("float", "NX"), vp("double", "Opacity"), vp("float", "S"), vp("float", "T"))
+		out = append(out, sysSpec(f, cased, r, 2))
+		// CRLF line ends throughout, blank lines (then "\r\n" alone) before, inside and after the vertex and face blocks
+		crlf := sysSpec(f, append(append([]VProp(nil), xyz...), vp("int", "id")), r, 3)
+		crlf.CRLF = true
+		crlf.HasFace = true
+		crlf.FProps = []FProp{{Ct: "uchar", Lt: "int", Name: "vertex_indices", CtAlias: "uchar", LtAlias: "int"},
+			{Ct: "uchar", Lt: "float", Name: "texcoord", CtAlias: "uchar", LtAlias: "float"}}
+		crlf.Faces = [][][]uint64{{{0, 1, 2}, {f32(0), f32(0), f32(1), f32(0), f32(1), f32(1)}},
+			{{2, 1, 0, 2}, {f32(0.5), f32(0), f32(1), f32(0.25), f32(1), f32(1), f32(0), f32(0.75)}}}
+		if f == "ascii" {
+			crlf.BodyBlank = []int{0, 2, 3, 3, 4}
+		}
+		out = append(out, crlf)
 		// S4
 		for si, names := range [][]string{{"red", "green", "blue", "alpha"}, {"r", "g", "b", "a"},
 			{"diffuse_red", "diffuse_green", "diffuse_blue", "diffuse_alpha"}} {
